@@ -4,16 +4,38 @@ set -e
 cd "$(dirname "$0")"
 export GOFLAGS=-mod=mod GOPROXY=off GOSUMDB=off GOTOOLCHAIN=local CGO_ENABLED=0
 mkdir -p bin evidence replays
-cp -f /repo/go.sum mc/go.sum 2>/dev/null || true
-build() {
-  (cd mc && go build -tags verif -o ../bin/check ./cmd/check)
+# keep the harness' go.sum a superset of the repository's
+if [ -f /repo/go.sum ]; then cat /repo/go.sum mc/go.sum 2>/dev/null | sort -u > bin/go.sum.tmp && mv bin/go.sum.tmp mc/go.sum; fi
+
+build_plain() { (cd mc && go build -tags verif -o ../bin/check ./cmd/check); }
+
+# C12's concurrent part: valuemap.go with "sync"/"sync/atomic" redirected to the scheduler shim (overlay, /repo untouched)
+build_sched() {
+  mkdir -p bin/overlay
+  sed -e 's#^\t"sync"$#\tsync "github.com/sealdice/dicescript/verifshim/vsync"#' \
+      -e 's#^\t"sync/atomic"$#\tatomic "github.com/sealdice/dicescript/verifshim/vatomic"#' /repo/valuemap.go > bin/overlay/valuemap.go
+  if ! grep -q 'verifshim/vsync' bin/overlay/valuemap.go || ! grep -q 'verifshim/vatomic' bin/overlay/valuemap.go; then
+    echo "MACHINERY ERROR: could not redirect sync imports of /repo/valuemap.go" >&2; return 2
+  fi
+  cat > bin/overlay/overlay.json <<JSON
+{"Replace": {
+ "/repo/valuemap.go": "$PWD/bin/overlay/valuemap.go",
+ "/repo/verifshim/vsync/vsync.go": "$PWD/mc/shim/vsync/vsync.go",
+ "/repo/verifshim/vatomic/vatomic.go": "$PWD/mc/shim/vatomic/vatomic.go"
+}}
+JSON
+  (cd mc && go build -tags "verif vshim" -overlay ../bin/overlay/overlay.json -o ../bin/check-sched ./cmd/check)
 }
+
 if [ "$1" = "--setup" ]; then
-  build
+  build_plain
+  build_sched
   echo "setup ok"
   exit 0
 fi
-build
 ID="$1"; shift
 ulimit -c 0
-exec ./bin/check "$ID" "$@"
+case "$ID" in
+  C12) build_sched; exec ./bin/check-sched "$ID" "$@" ;;
+  *)   build_plain; exec ./bin/check "$ID" "$@" ;;
+esac
